@@ -92,6 +92,71 @@ func TestVerifC20ListenerAcceptLoop(t *testing.T) {
 	r := run.Rand("bursts")
 	cfg := *c20ListenerCfg
 	cfg.Cmds = []byte{0x01} // no UDP relay creator on this listener
+	judgeClient := func(bi, n int, c *c20LoopClient, phase string) {
+			run.Eval(1)
+			v := &c.v
+			det := func(extra map[string]any) map[string]any {
+				m := map[string]any{"burst": bi, "clients_in_burst": n, "client": c.id, "client_addr": c.local, "sent_hex": c20Hex(c.stream), "received_hex": c20Hex(c.got), "read_error": c.rerr,
+					"reference": map[string]any{"accept": c20AcceptName[v.Accept], "why": v.Why, "host": fmt.Sprintf("%q", c20RefHost(v)), "port": v.Port}, "tunnel_double_succeeds": c.succeed,
+					"creator_calls": fmt.Sprintf("%+v", c.calls)}
+				for k, x := range extra {
+					m[k] = x
+				}
+				return m
+			}
+			if c.local == "" {
+				run.Count("dial_failed", 1)
+				return
+			}
+			if c.timeout && len(c.got) == 0 && len(c.calls) == 0 {
+				run.Count("unanswered_until_watchdog", 1) // inconclusive by itself
+				return
+			}
+			class := "connect-ok"
+			var want []byte
+			switch {
+			case v.Accept == c20Must && c.succeed:
+				want = append(append([]byte{5, 0, 5, 0, 0, 1, 0, 0, 0, 0, 0, 0}), c.tag...)
+			case v.Accept == c20Must:
+				class = "connect-tunnel-fails"
+			default:
+				class = "refused-" + v.Why
+			}
+			bad := ""
+			switch {
+			case v.Accept == c20Must && len(c.calls) != 1:
+				bad = "valid-not-dispatched"
+				if len(c.calls) > 1 {
+					bad = "dispatched-more-than-once"
+				}
+			case v.Accept == c20MustNot && len(c.calls) != 0:
+				bad = "invalid-dispatched"
+			case v.Accept == c20Must && (c.calls[0].host != c20RefHost(v) && !c20HostMatches(v, c.calls[0].host) || c.calls[0].port != v.Port):
+				bad = "dispatch-target-mismatch"
+			case want != nil && !bytes.Equal(c.got, want):
+				bad = "received-bytes"
+			case want == nil:
+				// method selection + exactly one well-formed reply with a fitting REP
+				ok := len(c.got) >= 2 && c.got[0] == 5 && c.got[1] == 0 && c20ReplyLen(c.got[2:]) == len(c.got)-2 && c.got[3] != 0
+				if ok && v.ReplyAllowed != nil && !c20Has(v.ReplyAllowed, c.got[3]) {
+					ok = false
+				}
+				if !ok {
+					bad = "received-bytes"
+				}
+			}
+			if bad != "" {
+				run.Violation(fmt.Sprintf("C20:listener-acceptloop|%s|class=%s%s", bad, class, phase), det(map[string]any{"want_hex": c20Hex(want), "phase": phase}))
+				return
+			}
+			run.Count("clients_served_correctly"+phase, 1)
+			run.Count("served:"+class, 1)
+			bs := "48-71"
+			if n >= 72 {
+				bs = "72-96"
+			}
+			run.Distinct(fmt.Sprintf("accept-loop|%s|atyp=%d|burst=%s", class, v.Atyp, bs))
+	}
 	bursts := run.Pick(25, 250)
 	next := 0
 	for bi := 0; bi < bursts && run.Violations() == 0; bi++ {
@@ -168,72 +233,97 @@ func TestVerifC20ListenerAcceptLoop(t *testing.T) {
 			run.Violation("C20:listener-acceptloop|dispatch-for-unknown-connection", map[string]any{"burst": bi, "call": s})
 		}
 		for _, c := range clients {
-			run.Eval(1)
-			v := &c.v
-			det := func(extra map[string]any) map[string]any {
-				m := map[string]any{"burst": bi, "clients_in_burst": n, "client": c.id, "client_addr": c.local, "sent_hex": c20Hex(c.stream), "received_hex": c20Hex(c.got), "read_error": c.rerr,
-					"reference": map[string]any{"accept": c20AcceptName[v.Accept], "why": v.Why, "host": fmt.Sprintf("%q", c20RefHost(v)), "port": v.Port}, "tunnel_double_succeeds": c.succeed,
-					"creator_calls": fmt.Sprintf("%+v", c.calls)}
-				for k, x := range extra {
-					m[k] = x
-				}
-				return m
-			}
-			if c.local == "" {
-				run.Count("dial_failed", 1)
-				continue
-			}
-			if c.timeout && len(c.got) == 0 && len(c.calls) == 0 {
-				run.Count("unanswered_until_watchdog", 1) // inconclusive by itself
-				continue
-			}
-			class := "connect-ok"
-			var want []byte
-			switch {
-			case v.Accept == c20Must && c.succeed:
-				want = append(append([]byte{5, 0, 5, 0, 0, 1, 0, 0, 0, 0, 0, 0}), c.tag...)
-			case v.Accept == c20Must:
-				class = "connect-tunnel-fails"
-			default:
-				class = "refused-" + v.Why
-			}
-			bad := ""
-			switch {
-			case v.Accept == c20Must && len(c.calls) != 1:
-				bad = "valid-not-dispatched"
-				if len(c.calls) > 1 {
-					bad = "dispatched-more-than-once"
-				}
-			case v.Accept == c20MustNot && len(c.calls) != 0:
-				bad = "invalid-dispatched"
-			case v.Accept == c20Must && (c.calls[0].host != c20RefHost(v) && !c20HostMatches(v, c.calls[0].host) || c.calls[0].port != v.Port):
-				bad = "dispatch-target-mismatch"
-			case want != nil && !bytes.Equal(c.got, want):
-				bad = "received-bytes"
-			case want == nil:
-				// method selection + exactly one well-formed reply with a fitting REP
-				ok := len(c.got) >= 2 && c.got[0] == 5 && c.got[1] == 0 && c20ReplyLen(c.got[2:]) == len(c.got)-2 && c.got[3] != 0
-				if ok && v.ReplyAllowed != nil && !c20Has(v.ReplyAllowed, c.got[3]) {
-					ok = false
-				}
-				if !ok {
-					bad = "received-bytes"
+			judgeClient(bi, n, c, "")
+		}
+	}
+
+	// ---- storm, then quiet, then probe (own listener): >64 connections stalled mid-handshake
+	// plus >64 more arriving meanwhile, all of them then go away; afterwards ordinary valid
+	// requests must be served as before. Nothing is judged during the storm (a server may
+	// limit concurrent handshakes); "quiet" is logical: every storm connection has seen the
+	// server close it.
+	if run.Violations() == 0 {
+		l2 := NewListener(ctx, &ListenerConfig{ListenAddr: "127.0.0.1:0", MappingID: "c20", TargetClientID: 2, SecretKey: "k"}, w)
+		if err := l2.Start(); err != nil {
+			t.Fatalf("harness: listener start: %v", err)
+		}
+		defer l2.Close()
+		addr2 := l2.GetListenAddr()
+		for round := 0; round < run.Pick(2, 6); round++ {
+			run.Case("accept-loop|storm", map[string]any{"round": round})
+			var storm []net.Conn
+			wave := func(n int, waitSelection bool) {
+				for i := 0; i < n; i++ {
+					conn, err := net.Dial("tcp", addr2)
+					if err != nil {
+						run.Count("dial_failed", 1)
+						continue
+					}
+					storm = append(storm, conn)
+					conn.Write([]byte{5, 1, 0})
+					if waitSelection {
+						conn.SetReadDeadline(time.Now().Add(5 * time.Second)) // watchdog only
+						sel := make([]byte, 2)
+						if _, err := io.ReadFull(conn, sel); err == nil && sel[0] == 5 && sel[1] == 0 {
+							run.Count("storm_stalled_mid_handshake", 1) // greeting answered, request outstanding
+						}
+					}
 				}
 			}
-			if bad != "" {
-				run.Violation(fmt.Sprintf("C20:listener-acceptloop|%s|class=%s", bad, class), det(map[string]any{"want_hex": c20Hex(want)}))
-				continue
+			wave(70+r.Intn(20), true)
+			wave(70+r.Intn(20), false)
+			run.Count("storm_connections", int64(len(storm)))
+			for _, conn := range storm { // all of them go away
+				if tc, ok := conn.(*net.TCPConn); ok {
+					tc.CloseWrite()
+				}
 			}
-			run.Count("clients_served_correctly", 1)
-			run.Count("served:"+class, 1)
-			bs := "48-71"
-			if n >= 72 {
-				bs = "72-96"
+			for _, conn := range storm {
+				conn.SetReadDeadline(time.Now().Add(8 * time.Second)) // watchdog only
+				if _, err := io.Copy(io.Discard, conn); err == nil {
+					run.Count("storm_connections_closed_by_server", 1)
+				} else {
+					run.Count("watchdog", 1)
+				}
+				conn.Close()
 			}
-			run.Distinct(fmt.Sprintf("accept-loop|%s|atyp=%d|burst=%s", class, v.Atyp, bs))
+			// probes
+			for pi := 0; pi < 6; pi++ {
+				next++
+				c := &c20LoopClient{id: next, succeed: true, tag: []byte(fmt.Sprintf("<tunnel-of-%d>", next))}
+				c.stream = c20AccStream(r, 1, []byte{1, 3, 4}[pi%3], []byte(fmt.Sprintf("probe-%d.c20.test", next)), 1+next%65535)
+				c.stream = c.stream[:len(c.stream)-len(c20Sentinel)]
+				c.v = c20RefTCP(&cfg, c.stream)
+				conn, err := net.Dial("tcp", addr2)
+				if err != nil {
+					run.Count("dial_failed", 1)
+					continue
+				}
+				c.local = conn.LocalAddr().String()
+				w.mu.Lock()
+				w.byAddr[c.local] = c
+				w.mu.Unlock()
+				conn.Write(c.stream)
+				conn.SetReadDeadline(time.Now().Add(8 * time.Second)) // watchdog only
+				b, err := io.ReadAll(conn)
+				c.got = b
+				if err != nil {
+					c.rerr = err.Error()
+					if ne, ok := err.(net.Error); ok && ne.Timeout() {
+						c.timeout = true
+					}
+				}
+				conn.Close()
+				run.Count("probes_after_storm", 1)
+				judgeClient(-1, 1, c, "|phase=after-storm")
+			}
 		}
 	}
 	run.Floor("bursts", int64(bursts))
+	run.Floor("storm_stalled_mid_handshake", 100)
+	run.Floor("storm_connections_closed_by_server", 256)
+	run.Floor("probes_after_storm", 12)
+	run.Floor("clients_served_correctly|phase=after-storm", 12)
 	run.Floor("clients_served_correctly", int64(bursts)*40)
 	run.Floor("served:connect-ok", int64(bursts)*20)
 	run.Floor("served:connect-tunnel-fails", int64(bursts))
